@@ -11,6 +11,8 @@ Inductive case :=
    address: NetIDType, NwkID bytes as (value, byte count) *)
 | CPrefix (v a : N) (o_addr : N) (o_member : bool) (o_ntype : N) (o_nid : list N)
           (o_atype : Z) (o_nwkid : option (N * nat))
+(* a DevAddr as received (no prefix assigned): NetIDType and NwkID; type -1 = no type prefix (first byte ff) *)
+| CAddr (a : N) (o_atype : Z) (o_nwkid : option (N * nat))
 (* value bytes -> MarshalText -> UnmarshalText, also with "0x" in front *)
 | CTextRT (bs : list N) (o_text : list N) (o_back o_back0x : outcome (list N))
 (* arbitrary text into UnmarshalText of a k-byte identifier *)
@@ -36,6 +38,15 @@ Definition check (c : case) : N :=
           && (o_atype =? Z.of_N t)%Z
           && match o_nwkid with Some (n, _) => n =? spec_nwkid v | None => false end
           && spec_member v o_addr)
+  | CAddr a o_atype o_nwkid =>
+    code ((devaddr_netid_type a =? o_atype)%Z && nwk_eqb (devaddr_nwkid a) o_nwkid)
+         (* the type is the one whose prefix value the leading bits carry; the NwkID is the field behind it *)
+         (match o_atype with
+          | Z.neg _ => (a / 2 ^ 24 =? 255) && match o_nwkid with None => true | Some _ => false end
+          | _ => let t := Z.to_N o_atype in
+                 (t <? 8) && (a / 2 ^ (32 - spec_prefix_len t) =? spec_prefix_val t)
+                 && match o_nwkid with Some (n, _) => n =? (a / 2 ^ spec_addr_bits t) mod 2 ^ spec_nwkid_width t | None => false end
+          end)
   | CTextRT bs o_text o_back o_back0x =>
     let k := length bs in
     code (bytes_eqb (marshal_text bs) o_text && oeqb (unmarshal_text k o_text) o_back
